@@ -203,3 +203,12 @@ def o7(ctx):
 
 
 RULES.append(o7)
+
+
+@rule("O8", doc="the completion of a slot map for slots it does not cover draws a NEW fresh slot for every slot (C03.H10): one shared placeholder identifies two redundant slots of a stored e-node, the node re-canonicalises to a different shape, and whether a later insertion finds it depends on the order of the unions")
+def o8_h10(ctx):
+    from . import c03
+    c03.h10(ctx)
+
+
+RULES.append(o8_h10)
